@@ -73,8 +73,8 @@ def type_proto(ty: str, shape):
     from onnx import helper, TensorProto
 
     et = {"T": TensorProto.FLOAT, "S": TensorProto.FLOAT, "B": TensorProto.BOOL, "I": TensorProto.INT64,
-          "M": TensorProto.BOOL}[ty]
-    return helper.make_tensor_type_proto(et, list(shape) if ty in ("T", "M") else [])
+          "M": TensorProto.BOOL, "N": TensorProto.INT64}[ty]
+    return helper.make_tensor_type_proto(et, list(shape) if ty in ("T", "M", "N") else [])
 
 
 class _Ty:
@@ -314,7 +314,7 @@ def load_corpus() -> list[dict]:
 def feeds_from_json(d: dict, meta: dict) -> dict:
     out = {}
     for n, t in meta["params"]:
-        dt = {"T": np.float32, "S": np.float32, "B": np.bool_, "I": np.int64}[t]
+        dt = {"T": np.float32, "S": np.float32, "B": np.bool_, "I": np.int64, "N": np.int64}[t]
         out[n] = np.array(d[n], dtype=dt)
     return out
 
@@ -407,6 +407,15 @@ def process_batch(task: dict) -> dict:
 
                 for what in c02.structural_oracle(fn[m["name"]], m, rec.get("real_neutral"), stats):
                     out["struct_failures"].append({"meta": m, "what": what})
+                if rec.get("real_neutral") is None and rec["tie"] == "unmodelled":
+                    # outside the Lean converter model (subscripts, nested defs): the verified checker still
+                    # applies to the real proto when it consists of op / If / Loop nodes only
+                    try:
+                        nt = enc.proto_to_neutral(fn[m["name"]].to_function_proto())
+                        if not enc.has_generic(nt):
+                            rec["real_neutral"] = nt
+                    except Exception:
+                        pass
                 if rec.get("real_neutral") is not None:
                     wf_lines.append("wf " + enc.neutral_to_sexp(rec["real_neutral"]))
                     wf_idx.append(m)
@@ -514,13 +523,16 @@ def merge(results: list[dict]):
     return stats, features, ties, pf, sf, refusals
 
 
-def generate_tasks(run: core.Run, n_prog: int, n_inputs: int, per_batch: int, **flags) -> tuple[list[dict], list[dict]]:
+def generate_tasks(run: core.Run, n_prog: int, n_inputs: int, per_batch: int, subscripts: bool = False,
+                   prefix: str = "f", **flags) -> tuple[list[dict], list[dict]]:
     seen = set()
     progs = []
     tries = 0
     while len(progs) < n_prog and tries < n_prog * 3:
         tries += 1
-        p = gen.generate(run.rng, f"f{len(progs)}")
+        p = gen.generate(run.rng, f"{prefix}{len(progs)}", subscripts=subscripts)
+        if subscripts and "subscript" not in p.features:
+            continue
         if p.src in seen:
             continue
         seen.add(p.src)
